@@ -22,6 +22,7 @@ ASSUMPTIONS = ["runaway-recursion aborts are outside this property's quantifier 
 UNIT_TIMEOUT = {"quick": 150, "thorough": 2400}
 
 COMMON = dict(
+    p_equal_values=0.3,
     p_shared=0.0,
     p_item_fault=0.06,
     p_wrap=0.5,
@@ -78,7 +79,10 @@ def diamond_program(rnd):
 
     def ov(body, name="sv0"):
         val[0] += 1
-        return ["with", ["ov", name, val[0]], body]
+        v = val[0]
+        if rnd.random() < 0.25:
+            v = rnd.choice([1, True, 1.0])
+        return ["with", ["ov", name, v], body]
 
     nparents = rnd.choice([2, 2, 3])
     nodes = [None]  # root
@@ -196,7 +200,7 @@ def run_unit(unit, progress):
         under2 = 0
         for fr in rrt.frames.values():
             for r in fr.received:
-                if r[0] == "read" and isinstance(r[2], int):
+                if r[0] == "read" and r[2][0] != "str":
                     under += 1
         pols = tl.policies(prog, rnd, unit.get("nsched", 3), exhaustive_perms=unit["tier"] == "thorough")
         bad = False
